@@ -186,6 +186,18 @@ def run_programs(R, tier, rng, observe=True, assign=True, light=False):
                 n_prog += 1
                 impl = guarded(lambda: f(derive())); ref = guarded(lambda: f(RaggedArray(rows, dtype=int)))
                 R.record(cname + " :: " + name, impl, ref, ref, nt, "observe/" + name.split("(")[0].split("[")[0][:14], py=pyname + f";  {name}  vs the same on RaggedArray({rows})")
+            # sequences of observations on ONE derived object (a cache filled by the first must not mislead the second; reading must not
+            # change what a later read returns), against the same sequence on a fresh equal array
+            if observe:
+                obs = observations(rows)
+                for _ in range(30 if tier == "thorough" else 10):
+                    (n1, f1), (n2, f2), (n3, f3) = rng.choice(obs), rng.choice(obs), rng.choice(obs)
+                    def seq(mk):
+                        d = mk(); r1 = guarded(lambda: f1(d)); r2 = guarded(lambda: f2(d)); r3 = guarded(lambda: f3(d)); r2b = guarded(lambda: f2(d))
+                        return [r1, r2, r3, r2b]
+                    n_prog += 1
+                    impl = guarded(lambda: seq(derive)); ref = guarded(lambda: seq(lambda: RaggedArray(rows, dtype=int)))
+                    R.record(cname + f" :: seq {n1} ; {n2} ; {n3} ; {n2}", impl, ref, ref, nt, "observe-sequence", py=pyname + f";  {n1}; {n2}; {n3}; {n2} on the same object  vs the same on RaggedArray({rows})")
             # assignments into the derived array: it changes like a fresh array, its source does not change
             for name, idx, v in (assignments(rows, rng) if assign else []):
                 def do(a, parent=None):
